@@ -357,6 +357,10 @@ func (m *Monitor) obsCall(s *step) {
 	}
 	iv := hit.Msg.(*wamp.Invocation)
 	cs := m.Sess[callee]
+	if disc && !rl.Spec.AllowDisclose && !hitReg.Disclose {
+		m.R.Hit("DS2")
+		m.R.Fail("DS2", "disallowed disclose_me call was delivered", "after %v: the realm does not allow disclosure and the registration did not ask for it, yet the call was routed instead of being refused with %s: %s", op, ErrDiscloseMe, hit.Snap)
+	}
 	if hitReg.Invoke == "roundrobin" {
 		if hitReg.rrUnsure {
 			hitReg.window = nil
